@@ -103,7 +103,7 @@ def run(ctx):
     ctx.assume('oracle: explicit cgs factors (1 mJy = 1e-26 erg/s/cm2/Hz, 1 W/m2 = 1e3 erg/s/cm2, L = F d^2 with d in cm as the statement says)',
                'rtol 1e-12', 'a file without the DISTANCE keyword is read as being at 1 kpc (the fallback the reader documents)')
     ctx.require_events('direct:same-grid-other-distance', 'convert_flux:post', 'read:matrix', 'roundtrip:ABA', 'chain:ABC', 'refused:target', 'refused:stored')
-    ctx.require_regimes('read:frequencies-requested-not-in-Hz', 'stored:grid-shared-with-other-files', 'stored:desc-wav', 'stored:asc-wav', 'read-order:nu', 'read-order:wav', 'stored:nu-in-GHz', 'stored:no-distance', 'stored:error-column-other-unit', 'stored:float32')
+    ctx.require_regimes('stored:all-zero-errors', 'read:frequencies-requested-not-in-Hz', 'stored:grid-shared-with-other-files', 'stored:desc-wav', 'stored:asc-wav', 'read-order:nu', 'read-order:wav', 'stored:nu-in-GHz', 'stored:no-distance', 'stored:error-column-other-unit', 'stored:float32')
     d = ctx.newdir('c15')
     names = list(UNITS)
     ic = 0
@@ -126,6 +126,9 @@ def run(ctx):
                 d_cm = dist_kpc * KPC_CM
                 f = 10.0 ** rng.uniform(-4, 4, (n_ap, n_w))
                 e = f * 0.1
+                if ic % 5 == 3:
+                    e = np.zeros_like(f)          # model SEDs without uncertainties: an error column that is all zeros
+                    ctx.regime('stored:all-zero-errors')
                 aps = gen.aperture_table(rng, n_ap)
                 path = os.path.join(d, 's%d.fits' % ic)
                 if spelling == '<SED.write>':
